@@ -335,7 +335,9 @@ def carry_cases(L_):
                 if ok:
                     res.append(R.ob(oid, 'mul_extended', R.PROVED, 'bits [%d,%d) of the exact 64-bit %s product' % (lo, lo + 32, 'signed' if signed else 'unsigned'), kernel=k.source()))
                 else:
-                    res.append(R.ob(oid, 'mul_extended', R.UNDECIDED, 'got %s ; expected %s' % (tm.show(t, 4), tm.show(exp, 4))))
+                    wit = L.pattern_witness(t, exp)
+                    res.append(R.ob(oid, 'mul_extended', R.REFUTED if wit else R.UNDECIDED, 'got %s ; expected %s%s' % (tm.show(t, 4), tm.show(exp, 4), (' -- for the input bit patterns %s: %#x versus %#x' % wit) if wit else ''),
+                                    where=R.where_of(it, t) if wit else None, kernel=k.source()))
         return res
     cs.append(R.Case('uaddCarry<%s>' % tg, [k_add], lambda ctx: judge_addsub(ctx, k_add, 'uaddCarry')))
     cs.append(R.Case('usubBorrow<%s>' % tg, [k_sub], lambda ctx: judge_addsub(ctx, k_sub, 'usubBorrow')))
